@@ -130,9 +130,11 @@ Qed.
 Lemma mutk_skip : forall k a b, mutk k a b -> has_skip_errors b = has_skip_errors a.
 Proof.
   intros k a b [m [x [-> [Hk ->]]]]. unfold has_skip_errors.
-  pose proof (obj_get_set_some [95;95;115;107;105;112;69;114;114;111;114;115] k x m Hk) as H.
-  destruct (obj_get _ (obj_set k x m)); destruct (obj_get _ m); auto;
-    destruct H as [H1 H2]; try (specialize (H1 eq_refl)); try (specialize (H2 eq_refl)); congruence.
+  set (sk := [95;95;115;107;105;112;69;114;114;111;114;115]).
+  pose proof (obj_get_set_some sk k x m Hk) as [H1 H2].
+  destruct (obj_get sk (obj_set k x m)) eqn:E1; destruct (obj_get sk m) eqn:E2; auto.
+  - specialize (H2 eq_refl). discriminate.
+  - specialize (H1 eq_refl). discriminate.
 Qed.
 Lemma mutk_obj : forall k a b, mutk k a b -> exists m', b = JObj m'.
 Proof. intros k a b [m [x [_ [_ ->]]]]. eauto. Qed.
